@@ -13,7 +13,7 @@ META = {
             "and consumes exactly total(trace), B < thr ends out of fuel after a proper prefix; consumed + remaining = B at every "
             "point and after every outcome; consumption does not depend on the budget; a nested evaluation continues with the "
             "caller's tracker so costs add up. The per-instruction cost table is regenerated from vm/fuel.rs on every run. The tie "
-            "runs ~500 (quick) programs (loops, macros, call blocks, imports, includes, inheritance, super, self.block, macros "
+            "runs ~1650 (quick) / ~25000 (thorough) programs (loops, macros, call blocks, imports, includes, inheritance, super, self.block, macros "
             "called from Rust, failing renders, expressions, random compositions) on the real engine: the executed trace is "
             "recorded through a verif_hooks callback, the threshold is found by bisection, every budget in [0, thr+8] and the "
             "extremes 2^31, 2^32, 2^63-1, 2^63, 2^63+1, 2^64-2, 2^64-1 are rendered with render_captured and compared with the "
@@ -25,7 +25,9 @@ META = {
                   "callback placed in eval_impl right before tracker.track (cross-checked against the compiled instruction list "
                   "for straight-line templates). The VM itself is not modelled: the run is abstracted to its executed "
                   "instruction trace, and 'fuel does not steer control flow' (a limited run dispatches a prefix of the unlimited "
-                  "trace) is validated on every scanned run, not proved.",
+                  "trace) is validated on every scanned run, not proved. Reading of 'fails with an out-of-fuel error': the root "
+                  "cause of the reported error (source() chain) is OutOfFuel and only the engine's nesting wrappers BadInclude / "
+                  "EvalBlock are around it (an error raised inside an include, import or parent block is always reported that way).",
 }
 
 U64 = 2 ** 64
